@@ -73,6 +73,22 @@ def views(script):
     return libs, incs, lib_incs, classes, cpp
 
 
+def ini_libs(libs, cpp):
+    """lib_deps as written by write_project and read back with configparser."""
+    import configparser
+    import tempfile
+    from pathlib import Path
+
+    from Reduino.toolchain.pio import write_project
+
+    with tempfile.TemporaryDirectory(prefix="reduverif-c14-") as td:
+        write_project(Path(td), cpp, "COM3", lib_deps=libs)
+        cp = configparser.ConfigParser(interpolation=None)
+        cp.read(Path(td) / "platformio.ini")
+        sec = cp[cp.sections()[0]]
+        return [x.strip() for x in sec.get("lib_deps", "").splitlines() if x.strip()]
+
+
 def run_case(case):
     cfg, sd, idx, link = case
     rng = rng_for(PROP, sd, idx)
@@ -84,6 +100,7 @@ def run_case(case):
         out["rejected"] = str(e)
         return out
     out.update(libs=libs, incs=incs, lib_incs=lib_incs, classes=classes, cpp=cpp)
+    out["ini_libs"] = ini_libs(libs, cpp)
     if link:
         with fw.Scratch() as wd:
             r = engine.firmware(cpp, wd, passes=2)
@@ -134,6 +151,8 @@ def main() -> int:
             problems.append(("dup-include", f"header included twice: {out['incs']}"))
         if set(L) != want:
             problems.append(("libs-vs-devices", f"lib_deps {sorted(L)} but the script declares devices needing {sorted(want)}"))
+        if sorted(out.get("ini_libs", L)) != sorted(want):
+            problems.append(("ini-vs-devices", f"platformio.ini lib_deps {out.get('ini_libs')} but the script declares devices needing {sorted(want)}"))
         if set(I) != want:
             problems.append(("includes-vs-devices", f"library headers {sorted(I)} but the script declares devices needing {sorted(want)}"))
         if set(K) != want:
